@@ -180,7 +180,7 @@ func flagRegisteredAs(c *Ctx, initFlags *ssa.Function, name string) string {
 			return
 		}
 		g, ok := st.Addr.(*ssa.Global)
-		if !ok || g.Name() != name {
+		if !ok || g.Name() != c.nowName("", name) {
 			return
 		}
 		if call, ok := st.Val.(*ssa.Call); ok && strings.HasPrefix(calleeName(&call.Call), "flag.") {
@@ -203,7 +203,7 @@ func c15r4(r *R) {
 			return
 		}
 		g, ok := st.Addr.(*ssa.Global)
-		if !ok || g.Name() != "flagEnableKubernetesProbe" {
+		if !ok || g.Name() != c.nowName("", "flagEnableKubernetesProbe") {
 			return
 		}
 		found = true
